@@ -41,6 +41,9 @@ def check(model, tier):
     _sqlplace2.r_inner_calculation_name(ctx, "R17.8")
     from ..rules import sqlemit as _sqlemit
 
+    _sqlemit.r02_3_hoisted_projection(ctx, rule="R17.12")
+    _sqlplace.r02_1_placement_table(ctx, rule="R17.10")
+    _sqlplace.r_sort_mapping(ctx, "R17.11")
     _sqlemit.r02_2_join_payload(ctx, rule="R17.9")  # a join keeps a stripped operand only when nothing it hides can shadow
     from ..rules.foundation import run_foundation
 
